@@ -149,6 +149,47 @@ def run(R):
                 break
         else:
             R.traces += 1
+    # bounds that are PARAMETERS, the repetition being the first thing the rule (or class) body does - nothing has set
+    # the registers before it; judged by the property's own wording (greedy up to the upper bound, failure below the lower)
+    def expect(m, k, t):
+        na = len(t) - len(t.lstrip('a'))
+        c = na if k is None else min(na, k)
+        return None if c < m else c
+    PT = ['', 'a', 'aa', 'aaa', 'aaaa', 'b', 'ab', 'aab', 'aaab', 'aaaaab']
+    for shape in ('rule', 'class', 'keyword'):
+        for form, lo, hi in (('{n}', 'n', 'n'), ('{,n}', 0, 'n'), ('{n,}', 'n', None), ('{0,n}', 0, 'n'), ('{1,n}', 1, 'n'), ('{2,n}', 2, 'n'), ('{3,n}', 3, 'n'),
+                             ('{n,1}', 'n', 1), ('{n,2}', 'n', 2), ('{n,3}', 'n', 3)):
+            for k in (0, 1, 2, 3):
+                if shape == 'class':
+                    d = f'start = [C(`{k}`), /[ab]*/]\nclass C(n) {{ xs: "a"{form} }}\n'
+                elif shape == 'keyword':
+                    d = f'start = [R(n=`{k}`), /[ab]*/]\nR(n) = "a"{form}\n'
+                else:
+                    d = f'start = [R(`{k}`), /[ab]*/]\nR(n) = "a"{form}\n'
+                m = k if lo == 'n' else lo
+                u = k if hi == 'n' else hi
+                R.count('parameter-bounds', d, nontrivial=True)
+                try:
+                    g = Grammar(d)
+                except Exception as e:          # noqa
+                    R.counterexample('parameter-bounds', 'parameter-bound:grammar-rejected:' + type(e).__name__, {'grammar': d}, 'a grammar module', repr(e)[:150])
+                    continue
+                for t in PT:
+                    c = expect(m, u, t)
+                    got = api(g, t)
+                    if c is None:
+                        ok = got.startswith('error at')
+                        want = 'ParseError (fewer than %d available within the bounds)' % m
+                    else:
+                        val = ['a'] * c
+                        want = 'return ' + repr([g.C(val) if shape == 'class' else val, t[c:]])
+                        ok = got == want
+                    if not ok:
+                        R.counterexample('parameter-bounds', 'parameter-bound' + (':' + got.split(' ')[1] if got.startswith('exception') else ':wrong-outcome'),
+                                         {'grammar': d, 'text': t, 'lower': m, 'upper': u}, want, got)
+                        break
+                else:
+                    R.traces += 1
     R.assumptions += ['regular expressions are an oracle (tables computed with Python re)',
                       'e{m,n} with a run-time m > n is outside the property (the constructor rejects it for literals): the specification makes no claim there']
     return R.finish(
